@@ -207,6 +207,20 @@ def empty_text(wb, a):
             yield ({"sheet": n, "pos": p, "how": "insert empty send_message", "depth": d},
                    _with_rows(wb, n, _insert(rows, p, [{"type": "send_message", "from": "start", "message_text": ""}])),
                    r"send_msg action requires non-empty text")
+        # a message without text is a message without text whatever else the row carries: media, quick replies,
+        # attachment columns that are there but blank (padding of a sheet whose other rows use them)
+        extras = [("with an image", {"image": "http://x.org/i.png"}), ("with an attachment", {"attachments": "image:http://x.org/a.png"}),
+                  ("with blank attachments.k columns", {"attachments.1": "", "attachments.2": ""}),
+                  ("with an attachments cell holding blanks only", {"attachments": ";"}),
+                  ("with quick replies", {"choices": "yes;no"}), ("with audio and video", {"audio": "http://x.org/a.mp3", "video": "http://x.org/v.mp4"})]
+        pos = list(insert_positions(rows, st))
+        for k, (label, extra) in enumerate(extras):
+            if not pos:
+                break
+            p, d = pos[(k * 7 + len(rows)) % len(pos)]
+            yield ({"sheet": n, "pos": p, "how": "insert empty send_message " + label, "depth": d},
+                   _with_rows(wb, n, _insert(rows, p, [dict({"type": "send_message", "from": "start", "message_text": ""}, **extra)])),
+                   r"send_msg action requires non-empty text")
 
 
 def overlong_value(wb, a, length=641):
